@@ -117,6 +117,28 @@ def write_input(d, seed, n_mut=5):
     return path
 
 
+def write_loss_prob_input(d):
+    """Input for the --assign-loss-prob route: string cluster ids, per-sample prevalences and chromosomes in the cluster file,
+    two clusters tied for the highest prevalence (the choice of the truncal cluster decides which clusters get the high prior)."""
+    clusters = {"A": list(range(1, 13)), "B": [1] * 6, "C": [7] * 6}
+    prev = {"A": (1.0, 1.0), "B": (1.0, 1.0), "C": (0.4, 0.2)}
+    data_rows = ["mutation_id\tsample_id\tref_counts\talt_counts\tmajor_cn\tminor_cn\tnormal_cn"]
+    clus_rows = ["mutation_id\tsample_id\tcluster_id\tcellular_prevalence\tchrom"]
+    for cl, chroms in clusters.items():
+        for j, chrom in enumerate(chroms):
+            for si, sname in enumerate(("S1", "S2")):
+                depth = 100 + 3 * j
+                alt = int(round(depth * prev[cl][si] / 2))
+                data_rows.append("%s_m%d\t%s\t%d\t%d\t1\t1\t2" % (cl, j, sname, depth - alt, alt))
+                clus_rows.append("%s_m%d\t%s\t%s\t%r\t%d" % (cl, j, sname, cl, prev[cl][si], chrom))
+    f, cf = os.path.join(d, "lp_in.tsv"), os.path.join(d, "lp_clusters.tsv")
+    with open(f, "w") as fh:
+        fh.write("\n".join(data_rows) + "\n")
+    with open(cf, "w") as fh:
+        fh.write("\n".join(clus_rows) + "\n")
+    return f, cf
+
+
 def call_worker(mode, cfg, extra=None, env=None):
     cmd = [sys.executable, WORKER, mode, json.dumps(cfg)] + ([json.dumps(extra)] if extra is not None else [])
     e = dict(os.environ)
@@ -161,6 +183,9 @@ def configs(tier, d, seed):
     ex = dict(in_file="/repo/examples/data/mixing_small.tsv", cluster_file="/repo/examples/data/mixing_small_clusters.tsv", iters=(25 if tier == "thorough" else 14), burnin=3, N=6,
               grid_size=21, seed=3 + seed)
     out.append(dict(ex, proposal="semi-adapted", outlier_prob=0.0))
+    # outlier priors assigned from the data (--assign-loss-prob): string cluster ids, a tie for the truncal cluster
+    lf, lcf = write_loss_prob_input(d)
+    out.append(dict(in_file=lf, cluster_file=lcf, iters=8, burnin=2, N=4, grid_size=11, seed=5 + seed, proposal="semi-adapted", outlier_prob=0.0, assign_loss_prob=True))
     if tier == "thorough":
         out.append(dict(ex, proposal="fully-adapted", outlier_prob=0.01))
         out.append(dict(ex, proposal="bootstrap", outlier_prob=0.0))
@@ -238,7 +263,7 @@ def main(tier, seed):
                 c = dict(cfg, chains=K)
                 for pi, (chain, hist) in enumerate(sorted(warm_pairs(all_classes[K]))):
                     # cold references under hash seed 0, warm replays under other hash seeds: a trace may depend on neither
-                    hseed = "0" if not hist else ["1", "2", str(1000 + seed), "77"][(pi + ci) % 4]
+                    hseed = "0" if not hist else ["1", "2", "3", "5", str(1000 + seed), "77"][(pi + ci) % 6]
                     jobs.append((("pair", ci, K, chain, hist), "chains", c, list(hist) + [chain], {"PYTHONHASHSEED": hseed}))
                 jobs.append((("orders", ci, K), "orders", c, None, {"PYTHONHASHSEED": "5"}))
         # real pool runs
